@@ -351,4 +351,18 @@ def symHash (H : PyHash) (x : Val) : Except Err Int :=
   | .ok t => .ok (evalHash H t)
   | .error e => .error e
 
+/-! ### Operators of classes that opt into symbolic comparison
+
+`Object.__eq__` / `__ne__` / `__hash__` (object.py) of an instance of a class with
+`use_symbolic_comparison = True`: `return self.sym_eq(other)`, `not self.__eq__(other)`,
+`return self.sym_hash()` — the very methods `pg.eq` / `pg.ne` / `pg.hash` dispatch to when the
+left operand is an object. -/
+
+/-- `x == y` for `x = cls(**kvs)` of an opted-in class. -/
+def opEq (c : Nat) (kvs : List (Atom × Val)) (y : Val) : Bool := eq (.obj c kvs) y
+/-- `x != y`. -/
+def opNe (c : Nat) (kvs : List (Atom × Val)) (y : Val) : Bool := !opEq c kvs y
+/-- `hash(x)`. -/
+def opHash (H : PyHash) (c : Nat) (kvs : List (Atom × Val)) : Except Err Int := symHash H (.obj c kvs)
+
 end Pg.C06
